@@ -1102,6 +1102,51 @@ fn mode_b64(seed: u64, n: u64) {
     }
 }
 
+// ------------------------------------------------------------------------------------------ mode lenb
+/// Length-prefix boundary: every size length x every length-prefixed type, element counts around the largest
+/// representable length.  Direct oracle: count <= max => accepted, prefix == count, all bytes read back to the same JSON;
+/// count > max => error (never bytes).
+fn mode_lenb() {
+    let sizes: [(SizeLength, u64, Vec<usize>); 4] = [
+        (SizeLength::U8, 255, vec![0, 1, 254, 255, 256, 257, 511, 512, 65536]),
+        (SizeLength::U16, 65535, vec![0, 255, 256, 65534, 65535, 65536, 65537, 65539, 131072]),
+        (SizeLength::U32, u32::MAX as u64, vec![0, 255, 256, 65535, 65536, 65537]),
+        (SizeLength::U64, u64::MAX, vec![0, 255, 256, 65535, 65536, 65537]),
+    ];
+    for (sl, max, counts) in sizes.iter() {
+        let w = (sl_num(sl) / 8) as usize;
+        for kind in ["String", "ByteList", "List", "Set", "Map"] {
+            for &n in counts.iter() {
+                let (t, j): (Type, Value) = match kind {
+                    "String" => (Type::String(*sl), Value::String("a".repeat(n))),
+                    "ByteList" => (Type::ByteList(*sl), Value::String((0..n).map(|i| format!("{:02x}", (i % 251) as u8)).collect())),
+                    "List" => (Type::List(*sl, Box::new(Type::U8)), Value::Array((0..n).map(|i| json!((i % 251) as u8)).collect())),
+                    "Set" => (Type::Set(*sl, Box::new(Type::U32)), Value::Array((0..n).map(|i| json!(i as u32)).collect())),
+                    _ => (Type::Map(*sl, Box::new(Type::U32), Box::new(Type::U8)), Value::Array((0..n).map(|i| json!([i as u32, (i % 251) as u8])).collect())),
+                };
+                let fits = (n as u64) <= *max;
+                let mut line = json!({"k": "lenb", "type": kind, "s": sl_num(sl), "n": n, "fits": fits});
+                match guarded(|| t.serial_value(&j)) {
+                    Err(p) => { line["out"] = json!("PANIC"); line["detail"] = json!(short(&p)); }
+                    Ok(Err(e)) => { line["out"] = json!("ERR"); line["detail"] = json!(short(&e.display(false))); }
+                    Ok(Ok(b)) => {
+                        line["out"] = json!("ok");
+                        line["bytes_len"] = json!(b.len());
+                        let mut pre = [0u8; 8];
+                        if b.len() >= w { pre[..w].copy_from_slice(&b[..w]); line["prefix"] = json!(u64::from_le_bytes(pre).to_string()); line["prefix_hex"] = json!(hex(&b[..w])); }
+                        match to_json_full(&t, &b) {
+                            Err(p) => { line["back"] = json!("PANIC"); line["back_detail"] = json!(short(&p)); }
+                            Ok(Err(e)) => { line["back"] = json!("ERR"); line["back_detail"] = json!(e); }
+                            Ok(Ok((v, used))) => { line["back"] = json!("ok"); line["used"] = json!(used); line["same_json"] = json!(v == j); }
+                        }
+                    }
+                }
+                println!("{}", line);
+            }
+        }
+    }
+}
+
 fn main() {
     quiet_panics();
     let a: Vec<String> = std::env::args().collect();
@@ -1116,6 +1161,7 @@ fn main() {
         "leb" => mode_leb(num(2), num(3)),
         "new" => mode_new(num(2), num(3), num(4) as u32),
         "b64" => mode_b64(num(2), num(3)),
+        "lenb" => mode_lenb(),
         _ => panic!("mode"),
     }
 }
